@@ -667,6 +667,9 @@ func (r *Reconciler) abortJobIfReserveOnSameNode(ctx context.Context, job *sev1a
 			}
 			return true, err
 		}
+	} else if !errors.IsNotFound(err) {
+		// the same-node check could not be made; retry rather than go on to evict
+		return false, err
 	}
 	return false, nil
 }
